@@ -341,6 +341,16 @@ theorem iferror_iff (x y : Value) :
     | some e => rfl
   · rw [h]
 
+/-- An ARRAY is a value, not an error - whatever it holds (`{1,2}/0`, a host range with error cells): the three predicates
+    answer FALSE and IFERROR hands the array back; no trap fires for an error that is only an element. -/
+theorem array_is_no_error (xs : List Value) (y : Value) :
+    ISERROR [.arr xs] = .ok (.bool false) ∧ ISERR [.arr xs] = .ok (.bool false) ∧ ISNA [.arr xs] = .ok (.bool false) ∧
+      IFERROR [.arr xs, y] = .ok (.arr xs) :=
+  ⟨rfl, rfl, rfl, rfl⟩
+
+example : ISERROR [.arr [.err .div0, .num (.int 1)]] = .ok (.bool false) ∧
+    IFERROR [.arr [.err .na], .num (.int 777)] = .ok (.arr [.err .na]) := ⟨rfl, rfl⟩
+
 /-- IFNA(x, y) is `y` when `x` is `#N/A` and `x` otherwise (other errors pass through) -/
 theorem ifna_spec (x y : Value) :
     IFNA [x, y] = .ok (if isErr x = some .na then y else x) := by
